@@ -136,6 +136,24 @@ func scenario(seed uint64, idx int, tier string, root string) []runRes {
 	}
 	run("parallel-prod-after-other-requests", "C", mk(true, rng.Range(1, 3)), sys.Opts{Sched: rng.Fork()})
 	run("linear-dev-after-other-requests", "C", mk(false, 1), sys.Opts{})
+	// cache populated by earlier production requests for the output's map ancestors over the same range (dir E): a
+	// tier-2 job then finds their cached outputs (present-but-empty ones, skipped ones) and may do without the block source
+	if anc := w.MapAncestors(sc.Output); len(anc) > 0 {
+		for _, a := range anc {
+			if !rng.Chance(3, 4) {
+				continue
+			}
+			s2 := uint64(start)
+			if i := w.Mod(a).Init; s2 < i {
+				s2 = i
+			}
+			if s2 == 0 {
+				s2 = 1
+			}
+			w.Run(filepath.Join(dir, "E"), sys.Req{Prod: true, Start: int64(s2), Stop: stop + uint64(rng.Range(0, 3)), Final: head + 30, Head: head + 30, Seg: seg, Workers: rng.Range(1, 2), Output: a}, sys.Opts{Sched: rng.Fork()})
+		}
+		run("parallel-prod-after-ancestor-requests", "E", mk(true, rng.Range(1, 3)), sys.Opts{Sched: rng.Fork()})
+	}
 	// dev mode with its own store back-fill on an empty cache but another worker count / order
 	run("linear-dev-empty-2", "D", mk(false, rng.Range(1, 3)), sys.Opts{Sched: rng.Fork()})
 	return out
